@@ -28,7 +28,13 @@ impl Dom {
     fn values(&self) -> Vec<i64> {
         match self {
             Dom::Range(a, b) => (*a..=*b).collect(),
-            Dom::Set(v) => v.clone(),
+            Dom::Set(v) => {
+                // (the list may be written unsorted and with repetitions)
+                let mut v = v.clone();
+                v.sort();
+                v.dedup();
+                v
+            }
             Dom::Bool => vec![0, 1],
         }
     }
@@ -573,7 +579,7 @@ pub fn cases(tier: Tier) -> Vec<Case> {
         insts.iter().find(|c| c.name == "int_ne").unwrap().clone(),
     ];
     for c in &core {
-        for variant in 0..14 {
+        for variant in 0..18 {
             let mut f = model(vec![c.clone(), ConDecl { name: "int_le", args: vec![v("x"), v("x")] }], Goal::Satisfy, String::new());
             // make sure all base variables exist for the variants
             f.vars = base_vars();
@@ -652,6 +658,36 @@ pub fn cases(tier: Tier) -> Vec<Case> {
                     f.vars.push(VarDecl { name: "t".into(), dom: Dom::Bool, alias: None, fixed: Some(0), output: true });
                     f.vars.push(VarDecl { name: "s".into(), dom: Dom::Bool, alias: Some("t".into()), fixed: None, output: true });
                     f.cons.push(ConDecl { name: "array_bool_or", args: vec![Arg::Arr(vec![v("s"), v("p")]), v("q")] });
+                }
+                14 => {
+                    // two range variables fixed by their initialisers to values different from
+                    // their (common) declared lower bound
+                    f.vars.push(VarDecl { name: "w".into(), dom: Dom::Range(0, 2), alias: None, fixed: Some(2), output: true });
+                    f.vars.push(VarDecl { name: "u".into(), dom: Dom::Range(0, 2), alias: None, fixed: Some(1), output: true });
+                    f.cons.push(ConDecl { name: "int_le", args: vec![v("u"), v("x")] });
+                    f.cons.push(ConDecl { name: "int_ne", args: vec![v("w"), v("x")] });
+                }
+                15 => {
+                    // a variable fixed by its initialiser, and the constant equal to its declared
+                    // lower bound used in variable positions
+                    f.vars.push(VarDecl { name: "w".into(), dom: Dom::Range(0, 3), alias: None, fixed: Some(2), output: true });
+                    f.cons.push(ConDecl { name: "int_ne", args: vec![v("x"), Arg::I(0)] });
+                    f.cons.push(ConDecl { name: "int_plus", args: vec![v("z"), Arg::I(0), v("z")] });
+                    f.cons.push(ConDecl { name: "array_int_maximum", args: vec![v("y"), Arg::Arr(vec![v("z"), Arg::I(0), v("w")])] });
+                }
+                16 => {
+                    // fixed through a singleton set_in / through an alias of a fixed variable
+                    f.cons.push(ConDecl { name: "set_in", args: vec![v("x"), Arg::SetList(vec![2])] });
+                    f.vars.push(VarDecl { name: "w".into(), dom: Dom::Range(0, 2), alias: Some("x".into()), fixed: None, output: true });
+                    f.cons.push(ConDecl { name: "int_ne", args: vec![v("z"), Arg::I(0)] });
+                    f.cons.push(ConDecl { name: "int_le", args: vec![Arg::I(0), v("y")] });
+                }
+                17 => {
+                    // set domains written unsorted and with repeated values
+                    f.vars.push(VarDecl { name: "w".into(), dom: Dom::Set(vec![2, 5, 0, 2, 7]), alias: None, fixed: None, output: true });
+                    f.vars.push(VarDecl { name: "u".into(), dom: Dom::Set(vec![1, -1, 1, 0]), alias: None, fixed: None, output: true });
+                    f.cons.push(ConDecl { name: "int_lin_le", args: vec![Arg::Arr(vec![Arg::I(1), Arg::I(-1)]), Arg::Arr(vec![v("x"), v("w")]), Arg::I(-3)] });
+                    f.cons.push(ConDecl { name: "int_ne", args: vec![v("u"), v("z")] });
                 }
                 _ => {
                     // several reified equalities of one variable combined in a clause
